@@ -32,6 +32,15 @@ def setup():
     g.__module__ = 'gvparse'
     _STATE['f'] = gin.external_configurable(f, name='f', module='gvparse', denylist=['q'])
     _STATE['g'] = gin.external_configurable(g, name='g', module='gvparse')
+
+    def h1(p=None):
+      return p
+
+    def h2(p=None):
+      return p
+    # two configurables that the short name h matches
+    _STATE['h1'] = gin.external_configurable(h1, name='h', module='gvparse')
+    _STATE['h2'] = gin.external_configurable(h2, name='h', module='gvparse2')
     d = tempfile.mkdtemp(prefix='ginverif_mod_')
     with open(os.path.join(d, 'gvmod_ok.py'), 'w') as fh:
       fh.write('X = 1\n')
@@ -41,11 +50,21 @@ def setup():
 
 
 def teardown():
+  # the configurables of this adapter must not stay behind for other adapters of the same process
+  try:
+    from gin import config
+    for sel in ('gvparse.f', 'gvparse.g', 'gvparse.h', 'gvparse2.h'):
+      if sel in config._REGISTRY:
+        c = config._REGISTRY.pop(sel)
+        config._INVERSE_REGISTRY.pop(c.wrapped, None)
+  except Exception:  # pylint: disable=broad-except
+    pass
   d = _STATE.get('moddir')
   if d:
     shutil.rmtree(d, ignore_errors=True)
     if d in sys.path:
       sys.path.remove(d)
+  _STATE.clear()
 
 
 def value_text(v):
